@@ -220,6 +220,41 @@ Go(M, c0, sym, ph, evs, fuel, dn, cons, raised) ==
          [] s.t = "case" -> Go(M, [c EXCEPT !.K = Push(FC([i \in DOMAIN s.cl |-> [S |-> {s.cl[i].r}, b |-> s.cl[i].b, prio |-> s.cl[i].prio]],
                                                            s.greedy, s.hasels, s.eb), K1)], sym, "arr", evs, fuel - 1, dn, cons, raised)
 
+\* ---------------- one-byte-lookahead ambiguity (C09) ----------------
+\* first symbols (strong first sets) of what follows on the continuation stack, and whether it can be passed without input
+RECURSIVE PassList(_), AccK(_, _)
+PassList(ss) == IF ss = <<>> THEN TRUE
+                ELSE LET s == Head(ss) IN
+                  (CASE s.t = "match" -> Nullable(s.r) [] s.t = "opt" -> TRUE [] IsAct(s) -> TRUE
+                     [] s.t \in {"try", "foreach"} -> PassList(s.b) [] OTHER -> FALSE) /\ PassList(Tail(ss))
+AccK(K, c) ==
+  IF K = <<>> THEN FALSE
+  ELSE LET top == Head(K) IN
+    CASE top.f = "S" -> Accepts(top.s, c) \/ (PassList(top.s) /\ AccK(Tail(K), c))
+      [] top.f = "L" -> Accepts(top.b, c)                       \* the loop goes round: the body starts again
+      [] top.f \in {"T", "E"} -> AccK(Tail(K), c)
+      [] OTHER -> FALSE
+\* cfg is settled and has no pending action.  TRUE iff symbol c admits two continuations at this point.
+Ambiguous(c, sym) ==
+  IF c.st # "run" \/ c.K = <<>> THEN FALSE
+  ELSE LET top == Head(c.K) rest == Tail(c.K) IN
+    CASE top.f = "M" -> NullS(top.S) /\ PDS(top.S, sym) # {} /\ AccK(rest, sym)
+      [] top.f = "W" -> NullS(top.S) /\ PDS(top.S, sym) # {} /\ AccK(rest, sym)
+      [] top.f = "C" ->
+           LET fin == {i \in DOMAIN top.cl : NullS(top.cl[i].S)}
+               live == {i \in DOMAIN top.cl : top.cl[i].S # {}}
+               maxp == IF fin = {} THEN 0 ELSE top.cl[CHOOSE i \in fin : \A j \in fin : top.cl[j].prio <= top.cl[i].prio].prio
+               cont == \E i \in live : PDS(top.cl[i].S, sym) # {}
+           IN IF top.greedy
+              THEN \/ Cardinality({i \in fin : top.cl[i].prio = maxp}) > 1                  \* no unique highest priority
+                   \/ (fin # {} /\ cont /\ \E i \in fin : top.cl[i].prio = maxp /\ AccK(Push(FS(top.cl[i].b), rest), sym))
+              ELSE \/ Cardinality(fin) > 1                                                  \* a string matches two clauses
+                   \/ (fin # {} /\ Cardinality(live) > 1)                                   \* matches one while another could continue
+                   \/ (fin # {} /\ cont /\ \E i \in fin : AccK(Push(FS(top.cl[i].b), rest), sym))
+      [] top.f = "S" /\ top.s # <<>> /\ Head(top.s).t = "opt" ->
+           Accepts(Head(top.s).b, sym) /\ AccK(Push(FS(Tail(top.s)), rest), sym)
+      [] OTHER -> FALSE
+
 \* all outcomes of symbol sym arriving in configuration c
 MaxDrop == 2
 \* the drop variants only matter when an error is raised while the symbol is processed
